@@ -36,8 +36,8 @@ func (c16) Assumptions() []string {
 func (c16) Batches(tier string, seed uint64) []core.Batch {
 	var b []core.Batch
 	b = append(b, spread("flip", 16, tierN(tier, 2, 12))...) // packages; each flip batch covers a 1/16 stripe of the bytes
-	b = append(b, spread("decoy", 4, tierN(tier, 15, 150))...)
-	b = append(b, spread("matrix", 2, tierN(tier, 20, 200))...)
+	b = append(b, spread("decoy", 4, tierN(tier, 40, 200))...)
+	b = append(b, spread("matrix", 2, tierN(tier, 60, 300))...)
 	return b
 }
 
